@@ -487,6 +487,90 @@ func wsStorm(run *vk.Run, a childArgs) {
 			}
 		}(p)
 	}
+	// stallers: members that stop reading their socket.  The residents' change events fill
+	// the socket, the server's writer for that client gives up after its write deadline, and
+	// the client's loop - in the middle of a burst of writes - must notice and leave.
+	var stallers []string
+	for p := 0; p < 2; p++ {
+		id := fmt.Sprintf("stall%d-%d", a.Index, p)
+		ws, err := srv.DialWS()
+		if err != nil {
+			continue
+		}
+		defer ws.Close()
+		ws.WriteJSON(map[string]any{"type": "handshake", "version": []string{"2"}, "id": id})
+		ws.WriteJSON(map[string]any{"type": "join", "kind": "join", "group": []string{"v1", "v2"}[p], "username": "op1", "password": "pw-op1"})
+		// read until the join is acknowledged, then never again
+		ok := false
+		for k := 0; k < 50 && !ok; k++ {
+			var m map[string]any
+			ws.SetReadDeadline(time.Now().Add(5 * time.Second))
+			if ws.ReadJSON(&m) != nil {
+				break
+			}
+			ok = m["type"] == "joined" && m["kind"] == "join"
+		}
+		if ok {
+			stallers = append(stallers, id)
+		}
+	}
+	defer func() {
+		// make sure the stalled sockets are full: 3 MB of change events per group, far more
+		// than a unix socket and the websocket buffers hold; then the write deadline (500 ms)
+		if len(stallers) > 0 {
+			for gi, gname := range []string{"v1", "v2"} {
+				id := fmt.Sprintf("fill%d-%d", a.Index, gi)
+				c, err := vclient.Dial(srv, id)
+				if err != nil {
+					continue
+				}
+				if m, ok := c.Join(gname, "op1", "pw-op1"); ok && m.Str("kind") == "join" {
+					pad := strings.Repeat("x", 1000)
+					for n := 0; n < 3000; n++ {
+						if c.Send(vclient.Msg{"type": "useraction", "kind": "setdata", "source": id, "dest": id, "value": map[string]any{"pad": pad, "n": n}}) != nil {
+							break
+						}
+						if n%100 == 99 {
+							c.Ping(20 * time.Second)
+						}
+					}
+					c.Ping(20 * time.Second)
+				}
+				c.Close()
+			}
+			time.Sleep(1200 * time.Millisecond)
+		}
+		gone := func() []string {
+			var still []string
+			for _, gname := range []string{"v1", "v2"} {
+				if g := group.Get(gname); g != nil {
+					for _, c := range g.GetClients(nil) {
+						for _, id := range stallers {
+							if c.Id() == id {
+								still = append(still, id+" in "+gname)
+							}
+						}
+					}
+				}
+			}
+			return still
+		}
+		var still []string
+		for k := 0; k < 100; k++ {
+			if still = gone(); len(still) == 0 {
+				break
+			}
+			time.Sleep(50 * time.Millisecond)
+		}
+		if len(stallers) > 0 {
+			run.Count("ws_stalled_clients", int64(len(stallers)))
+		}
+		if len(still) > 0 {
+			run.Violation("stalled-client-remains-member", fmt.Sprintf("clients that stopped reading their socket (the server's writer gave up on them) are still members 5 s after the workload ended: %v: the client's loop never noticed that its writer was gone", still), map[string]any{"mode": "ws", "index": a.Index})
+		} else if len(stallers) > 0 {
+			run.Count("ws_stalled_clients_removed", int64(len(stallers)))
+		}
+	}()
 	var cwg sync.WaitGroup
 	for w := 0; w < 8; w++ {
 		cwg.Add(1)
